@@ -630,6 +630,36 @@ impl<'a> LoweringManager<'a> {
   }
 }
 
+/// The UTF-8 bytes of a string constant. The constant holds the source text of the literal, in
+/// which an escape sequence (`\\t \\v \\0 \\b \\f \\n \\r \\\\`) stands for a single character.
+fn string_constant_bytes(s: &str) -> Vec<u8> {
+  let mut out = Vec::with_capacity(s.len());
+  let mut buffer = [0u8; 4];
+  let mut chars = s.chars();
+  while let Some(c) = chars.next() {
+    if c != '\\' {
+      out.extend_from_slice(c.encode_utf8(&mut buffer).as_bytes());
+      continue;
+    }
+    match chars.next() {
+      Some('t') => out.push(b'\t'),
+      Some('v') => out.push(0x0b),
+      Some('0') => out.push(0),
+      Some('b') => out.push(0x08),
+      Some('f') => out.push(0x0c),
+      Some('n') => out.push(b'\n'),
+      Some('r') => out.push(b'\r'),
+      Some('\\') => out.push(b'\\'),
+      Some(other) => {
+        out.push(b'\\');
+        out.extend_from_slice(other.encode_utf8(&mut buffer).as_bytes());
+      }
+      None => out.push(b'\\'),
+    }
+  }
+  out
+}
+
 pub(super) fn compile_lir_to_wasm(heap: &mut Heap, sources: lir::Sources) -> wasm::Module {
   let lir::Sources {
     symbol_table: source_symbol_table,
@@ -648,10 +678,10 @@ pub(super) fn compile_lir_to_wasm(heap: &mut Heap, sources: lir::Sources) -> was
   // Collect all string bytes into a single data segment
   let mut data_segment_bytes = Vec::new();
   for (idx, hir::GlobalString(content)) in source_global_variables.iter().enumerate() {
-    let content_str = content.as_str(heap);
+    let content_bytes = string_constant_bytes(content.as_str(heap));
     let offset = data_segment_bytes.len();
-    let length = content_str.len();
-    data_segment_bytes.extend_from_slice(content_str.as_bytes());
+    let length = content_bytes.len();
+    data_segment_bytes.extend_from_slice(&content_bytes);
     // Create a unique global name for this string (GLOBAL_STRING_0, GLOBAL_STRING_1, ...)
     let global_name = heap.alloc_string(format!("GLOBAL_STRING_{idx}"));
     string_name_mapping.insert(*content, global_name);
